@@ -1,0 +1,21 @@
+//go:build verif
+
+// Machine-checked contracts for package authmodel (comment-only; see /verif/DESIGN.md).
+
+package authmodel
+
+//@ func (*CertificateInfo).Allowed
+//@   property C04
+//@   loop 0 sig "for _, keyRole := range keyConf.Roles" invariant -1 <= rangeindex && rangeindex < len(keyConf.Roles) && \
+//@        forall(a, 0, rangeindex + 1, forall(b, 0, len(c.Roles), keyConf.Roles[a] != c.Roles[b]))
+//@   loop 1 sig "for _, clientRole := range c.Roles" invariant -1 <= rangeindex && rangeindex < len(c.Roles) && \
+//@        forall(b, 0, rangeindex + 1, keyRole != c.Roles[b])
+//@   ensures @allowed_iff_a_role_is_shared ret0 == exists(a, 0, len(keyConf.Roles), exists(b, 0, len(c.Roles), keyConf.Roles[a] == c.Roles[b]))
+//@   modifies nothing
+//@
+//@ func Middleware$1$1
+//@   property C04
+//@   ghost authOK bool = false
+//@   ghost authErr error = nil
+//@   on call invoke Authenticator.Authenticate(_, _) ret (i, e): authOK = (e == nil && i != nil); authErr = e
+//@   before call invoke net/http.Handler.ServeHTTP(h, _, _): assert @inner_handler_only_after_authentication authOK || (authErr != nil && h == authErr)
